@@ -1886,3 +1886,39 @@ def _np_argmax(ex, a, k):
     if isinstance(v, NP.NPArr):
         return NP.argmax_bool(ex, v)
     raise OutOfSubset('np.argmax of %s' % type(v).__name__)
+
+
+@ext('torch.dot')
+def _dot(ex, a, k):
+    """torch.dot: sum_i a_i b_i  (no conjugation), 1-D operands of equal length"""
+    x, y = a[0], a[1]
+    if not (isinstance(x, STensor) and isinstance(y, STensor)) or x.ndim != 1 or y.ndim != 1:
+        raise PyRaise('RuntimeError', '1D tensors expected', origin='torch')
+    return T.matmul(x, y)
+
+
+@ext('torch.any')
+def _any(ex, a, k):
+    t = a[0]
+    if not isinstance(t, STensor) or len(a) > 1 or k:
+        raise OutOfSubset('torch.any with dim')
+    out = STensor([], 'bool', None)
+    b = fresh_bool('any')
+    out.ghost['bool'] = b
+    if t._val is not None and all(len(ax.factors) == 1 for ax in t.axes):
+        # not any(t)  ==>  every entry is zero
+        js = [z3.Int('j!any%d' % i) for i in range(t.ndim)]
+        v = t.at(js)
+        if v.is_simple() and js:
+            rng = z3.And(*[z3.And(j >= 0, j < to_int(ax.size)) for j, ax in zip(js, t.axes)])
+            ex.assume(z3.Implies(z3.Not(b), z3.ForAll(js, z3.Implies(rng, v.simple_expr() == 0))))
+    return T.derive(out, t, differentiable=False)
+
+
+_ts2 = truth_sym
+
+
+def truth_sym(ex, v):   # noqa: F811
+    if isinstance(v, STensor) and 'bool' in v.ghost:
+        return v.ghost['bool']
+    return _ts2(ex, v)
